@@ -128,6 +128,16 @@ def gen_cases(rng, tables, tier):
             L["steps"].append(dict(step("proxy", "/_piko/v1/tcp/" + n, auth=hdr(tok(alg=alg, key=key, endpoints=["e"]))), label="wired:tcp"))
             L["steps"].append(dict(step("proxy", "/x", host=n + ".example.com", xauth=hdr(tok(alg=alg, key=key, endpoints=["e", "E"]))), label="wired:http"))
     cases.append(L)
+    # tenants only: no default key on the upstream port - the port is still guarded, and only by the tenants' keys
+    L2 = {"id": "wired-tenants-only", "wired": True, "proxy": portcfg(None),
+          "upstream": portcfg(mtv(vc(), [{"id": "t1", "cfg": vc(hmac="hmacB")}, {"id": "t2", "cfg": vc(ecdsa="ecA256")}])),
+          "admin": portcfg(None), "steps": []}
+    L2["steps"].append(dict(step("upstream", "/piko/v1/upstream/e"), label="wired:tenant:-:none"))
+    for key, alg in (("hmacA", "HS256"), ("hmacB", "HS256"), ("ecA256", "ES256"), ("hmacEmpty", "HS256")):
+        for ten in ("", "t1", "t2", "tx"):
+            for claims in (None, ["e"], ["f"]):
+                L2["steps"].append(dict(step("upstream", "/piko/v1/upstream/e", tenant=ten, auth=hdr(tok(alg=alg, key=key, endpoints=claims))), label="wired:tenant:%s:%s" % (ten or "-", key)))
+    cases.append(L2)
     return cases
 
 
@@ -181,6 +191,33 @@ def run(ctx):
                                "found_input": False,
                                "replay_obj": {"broken": "corr:C10:auth_h:serve", "disagreements": len(dis), "model": d["model"],
                                               "case": dict(c, steps=[st]), "observed": ob}})
+    # ---- the real data path (monitor only): proxy servers that verify tokens in front of real managers and scripted upstreams
+    # registered under endpoint ids a URL / host parser would fold together; the endpoint the token was checked for must be the
+    # endpoint whose upstream gets the request - through keep-alive, connection reuse and a second node
+    from props import proxy_common as px
+    pbin = build_harness(px.PKG)
+    tclusters = [px.gen_token_cluster(random.Random(ctx["seed"] * 31 + i), "tok%d" % i) for i in range(6 if ctx["tier"] == "quick" else 60)]
+    touts = px.run_clusters(pbin, ctx["wd"], tclusters, tag="tok")["clusters"]
+    tfail = None
+    for cl, co in zip(tclusters, touts):
+        if co.get("panic"):
+            tfail = (cl, len(co.get("requests") or []), px.fail("panic", "harness panic/watchdog: " + co["panic"]))
+            break
+        for ri, (rq, ob) in enumerate(zip(cl["requests"], co["requests"])):
+            f = px.monitor_token_path(cl, ri, rq, ob)
+            if f:
+                tfail = (cl, ri, f)
+                break
+        if tfail:
+            break
+    if tfail:
+        cl, ri, f = tfail
+        small = dict(cl, requests=cl["requests"][:ri + 1])
+        violations.append({"what": "C10 data-path monitor [%s]: %s (cluster %s, request %d)" % (f["sig"], f["why"], cl["id"], ri), "found_input": True,
+                           "replay_obj": {"property": ID, "kind": "token-path", "signature": f["sig"], "why": f["why"], "cluster": small}})
+    cov_extra["data_path"] = {"clusters": len(tclusters), "requests": sum(len(c["requests"]) for c in tclusters),
+                              "served": sum(1 for co in touts for ob in (co.get("requests") or []) if ob.get("stamped")),
+                              "refused_401": sum(1 for co in touts for ob in (co.get("requests") or []) if ob["status"] == 401)}
     nreq = sum(len(c["steps"]) for c in cases)
     routed = sum(1 for o in stats["outs"] for ob in (o.get("obs") or []) if ob["select"] or ob["addconn"])
     distinct = len({json.dumps([c[s["port"]], {k: v for k, v in s.items() if k != "label"}], sort_keys=True) for c in cases for s in c["steps"]
@@ -204,6 +241,13 @@ def run(ctx):
 
 def replay(path, wd):
     obj = json.load(open(path))
+    if obj.get("kind") == "token-path":
+        from props import proxy_common as px
+        cl = obj["cluster"]
+        co = px.run_clusters(build_harness(px.PKG), wd, [cl], tag="replay")["clusters"][0]
+        print(json.dumps({"monitor": [{"request": ri, **f} for ri, (rq, ob) in enumerate(zip(cl["requests"], co.get("requests") or []))
+                                      for f in [px.monitor_token_path(cl, ri, rq, ob)] if f], "panic": co.get("panic")}, indent=1))
+        return 0
     case = obj.get("case")
     if not case:
         print(json.dumps(obj, indent=1)[:4000])
